@@ -249,6 +249,86 @@ func c28(p *an.Prog, r *an.R, tier string) {
 			r.Check(direct, "C28.R2", an.FuncName(fn)+"/"+c.eng+"."+c.name+"/returned-unmodified", c.c.Pos(), "the engine's result is returned as is", "the "+c.eng+" engine's result is post-processed before being returned; the other engine's is not necessarily treated alike")
 		}
 	})
+	// dispatch through an interface: a method of Regexp calls M on the value returned by a helper of the
+	// package that returns one engine or the other. Method and arguments are then the same for both engines
+	// by construction; what remains is that the helper hands out the RE2 engine only under a non-nil test.
+	p.AllDecls(func(fn *types.Func, d *an.DeclInfo) {
+		if d.Pkg != pkg || d.Decl.Body == nil || strings.HasSuffix(p.Fset.Position(d.Decl.Pos()).Filename, "_test.go") {
+			return
+		}
+		// fn returns an engine: every return is a selection of an engine field
+		engines := map[string]bool{}
+		all, rets := true, 0
+		ast.Inspect(d.Decl.Body, func(n ast.Node) bool {
+			if _, isLit := n.(*ast.FuncLit); isLit {
+				return false
+			}
+			rs, ok := n.(*ast.ReturnStmt)
+			if !ok {
+				return true
+			}
+			rets++
+			if len(rs.Results) != 1 {
+				all = false
+				return true
+			}
+			se, ok := ast.Unparen(rs.Results[0]).(*ast.SelectorExpr)
+			if !ok || info.Selections[se] == nil || fieldEng[info.Selections[se].Obj()] == "" {
+				all = false
+				return true
+			}
+			engines[fieldEng[info.Selections[se].Obj()]] = true
+			return true
+		})
+		if !all || rets == 0 || len(engines) < 2 {
+			return
+		}
+		// used as `re.helper(..).M(args)` by a method of Regexp
+		used := false
+		p.AllDecls(func(cf *types.Func, cd *an.DeclInfo) {
+			if cd.Pkg != pkg || cd.Decl.Body == nil {
+				return
+			}
+			ast.Inspect(cd.Decl.Body, func(n ast.Node) bool {
+				c, ok := n.(*ast.CallExpr)
+				if !ok {
+					return true
+				}
+				if se, ok := ast.Unparen(c.Fun).(*ast.SelectorExpr); ok {
+					if inner, ok := ast.Unparen(se.X).(*ast.CallExpr); ok && an.Callee(info, inner) == fn {
+						used = true
+					}
+				}
+				return true
+			})
+		})
+		if !used {
+			return
+		}
+		nDispatch++
+		r.Fn(an.FuncName(fn))
+		g := an.NewG(info, d.Decl.Body)
+		for _, l := range g.Locs(func(n ast.Node) bool { _, ok := n.(*ast.ReturnStmt); return ok }) {
+			rs := g.Node(l).(*ast.ReturnStmt)
+			se := ast.Unparen(rs.Results[0]).(*ast.SelectorExpr)
+			if fieldEng[info.Selections[se].Obj()] != "re2" {
+				continue
+			}
+			guarded := g.GuardedBy(l, func(cond ast.Expr, truth bool) bool {
+				be, ok := ast.Unparen(cond).(*ast.BinaryExpr)
+				if !ok || !(be.Op == token.NEQ && truth || be.Op == token.EQL && !truth) {
+					return false
+				}
+				isRE2 := func(e ast.Expr) bool {
+					s2, ok := ast.Unparen(e).(*ast.SelectorExpr)
+					return ok && info.Selections[s2] != nil && fieldEng[info.Selections[s2].Obj()] == "re2"
+				}
+				return (isRE2(be.X) && info.Types[be.Y].IsNil()) || (isRE2(be.Y) && info.Types[be.X].IsNil())
+			}, nil)
+			r.Check(guarded, "C28.R3", an.FuncName(fn)+"/returns-re2/re2-non-nil", rs.Pos(), "the RE2 engine is handed out only after a non-nil test", "the engine selector can hand out the RE2 engine without a non-nil test: it is nil whenever the threshold is disabled")
+		}
+		r.OK("C28.R2", an.FuncName(fn)+"/one-call-site-for-both-engines", d.Decl.Pos(), "both engines are reached through one call: same method, same arguments")
+	})
 	r.Floor("C28.R2.dispatching-methods", 1, nDispatch)
 	// R4: an engine method called for its effect (statement position) configures that engine only
 	r.Rule("C28.R4", "an engine method called for its effect (statement position: Longest, ...) in package hybridre2 is called on both engines in the same function")
